@@ -16,7 +16,23 @@
 #include <tuple>
 #include <vector>
 
+#ifdef WB_PRIVATE_PUBLIC
+// white-box build: every standard header the library uses is included above / here first, then the
+// library's private members are opened for the state dump (harness/wb.cpp); nothing in /repo changes
+#include <atomic>
+#include <list>
+#include <map>
+#include <mutex>
+#include <numeric>
+#include <random>
+#include <unordered_map>
+#include <utility>
+#define private public
+#endif
 #include "cappuccino/cappuccino.hpp"
+#ifdef WB_PRIVATE_PUBLIC
+#undef private
+#endif
 
 // ---------------------------------------------------------------- virtual clock
 namespace vclock
